@@ -292,10 +292,12 @@ theorem good_flt {r : String} {n : Int} {d : Nat} (h : fltPieceOk r n d = true) 
       simp [nextCharN, pieceChars, Tok.text, h]
 
 theorem good_true : Good [.tok .tTrue] :=
-  ⟨by simp, fun nx _ => by simp [adjOkN, pieceOk], ⟨'T', rfl, by decide⟩⟩
+  ⟨by simp, fun nx hnx => by simp [adjOkN, pieceOk, nextCharN, followers_word nx hnx],
+    ⟨'T', rfl, by decide⟩⟩
 
 theorem good_false : Good [.tok .tFalse] :=
-  ⟨by simp, fun nx _ => by simp [adjOkN, pieceOk], ⟨'F', rfl, by decide⟩⟩
+  ⟨by simp, fun nx hnx => by simp [adjOkN, pieceOk, nextCharN, followers_word nx hnx],
+    ⟨'F', rfl, by decide⟩⟩
 
 theorem good_unit : Good [sy "(", sy ")"] :=
   ⟨by simp, fun nx _ => by simp [adjOkN, pieceOk_free se_lpar, pieceOk_free se_rpar],
@@ -395,8 +397,8 @@ theorem pieceOk_dot {p : Piece} (h : pieceOk p (some ' ') = true) (hi : ∀ n, p
     | ident s =>
       simp only [pieceOk, Bool.and_eq_true] at h ⊢
       exact ⟨h.1, by decide⟩
-    | tTrue => rfl
-    | tFalse => rfl
+    | tTrue => simp only [pieceOk]; decide
+    | tFalse => simp only [pieceOk]; decide
     | sym s =>
       simp only [pieceOk] at h ⊢
       cases he : symEntry s.toList with
